@@ -329,13 +329,20 @@ func (s *Server) followStep(host string, port int, followc int) error {
 		return err
 	}
 
-	s.mu.Lock()
-	s.faofsz = int(aofSize)
-	s.mu.Unlock()
-
 	caughtUp := pos >= aofSize
+	s.mu.Lock()
+	if int(s.followc.Load()) != followc {
+		// FOLLOW was issued again while this step was waiting for its
+		// leader: its position says nothing about the present leader
+		s.mu.Unlock()
+		return errNoLongerFollowing
+	}
+	s.faofsz = int(aofSize)
 	if caughtUp {
 		s.setCaughtUp(true)
+	}
+	s.mu.Unlock()
+	if caughtUp {
 		log.Info("caught up")
 	}
 
@@ -359,18 +366,18 @@ func (s *Server) followStep(host string, port int, followc int) error {
 			return err
 		}
 		s.mu.Lock()
-		s.faofsz = aofsz
-		s.mu.Unlock()
-		if !caughtUp {
-			if aofsz >= int(aofSize) {
-				caughtUp = true
-				s.mu.Lock()
-				s.flushAOF(false)
-				s.setCaughtUp(true)
-				s.mu.Unlock()
-				log.Info("caught up")
-			}
+		if int(s.followc.Load()) != followc {
+			s.mu.Unlock()
+			return errNoLongerFollowing
 		}
+		s.faofsz = aofsz
+		if !caughtUp && aofsz >= int(aofSize) {
+			caughtUp = true
+			s.flushAOF(false)
+			s.setCaughtUp(true)
+			log.Info("caught up")
+		}
+		s.mu.Unlock()
 
 	}
 }
